@@ -8,6 +8,7 @@ import (
 	"verif/harness/internal/c01"
 	"verif/harness/internal/c02"
 	"verif/harness/internal/c05"
+	"verif/harness/internal/c06"
 	"verif/harness/internal/c08"
 	"verif/harness/internal/c14"
 	"verif/harness/internal/c15"
@@ -29,6 +30,8 @@ func main() {
 		os.Exit(c15.Main(os.Args[2:]))
 	case "c02":
 		os.Exit(c02.Main(os.Args[2:]))
+	case "c06":
+		os.Exit(c06.Main(os.Args[2:]))
 	case "c05":
 		os.Exit(c05.Main(os.Args[2:]))
 	}
